@@ -844,7 +844,8 @@ func (l *Loader) mergeResult(fetchItem *FetchItem, res *result, items []*astjson
 			l.skipValueCompletion = true
 		}
 
-		// no data
+		// no data: dependants must not run on the holes this fetch left
+		l.recordErroredFetchIDLocked(fetchItem)
 		return nil
 	}
 
@@ -1403,6 +1404,8 @@ func (l *Loader) renderErrorsFailedDeps(fetchItem *FetchItem, res *result) error
 }
 
 func (l *Loader) renderErrorsFailedToFetch(fetchItem *FetchItem, res *result, reason string) error {
+	// The fetch delivered nothing: its dependants must not run on the holes it left (called under the data lock).
+	l.recordErroredFetchIDLocked(fetchItem)
 	l.recordSubgraphError(res, res.err, NewSubgraphError(res.ds, fetchItem.ResponsePath, reason, res.statusCode))
 	errorObject, err := astjson.ParseWithArena(l.jsonArena, l.renderSubgraphBaseError(res.ds, fetchItem.ResponsePath, reason))
 	if err != nil {
@@ -1423,6 +1426,7 @@ func (l *Loader) renderErrorsStatusFallback(fetchItem *FetchItem, res *result, s
 		reason += ": " + statusText
 	}
 
+	l.recordErroredFetchIDLocked(fetchItem)
 	l.recordSubgraphError(res, res.err, NewSubgraphError(res.ds, fetchItem.ResponsePath, reason, res.statusCode))
 
 	errorObject, err := astjson.ParseWithArena(l.jsonArena, fmt.Sprintf(`{"message":"%s"}`, reason))
